@@ -20,7 +20,7 @@ func init() {
 		Technique: "control-dependence of every GoOn return on the credential check, reachability from each failing edge to a forwarding return, value-flow from rule configuration to the compared secret, key-function inspection for the JWT algorithm pin, command-table agreement for mod_block, error-gate analysis of the table load chains (publication dominated by the loader's err == nil, success returns gated by every inspected step, failing edges closed)",
 		Meta: core.Meta{
 			Level:       "other",
-			Explanation: "Decides for mod_auth_basic, mod_auth_jwt, mod_secure_link and mod_block: (1) in each handler every `return BfeHandlerGoOn` that is control-dependent on a rule having matched is also control-dependent on the credential check having succeeded, every other verdict returned there is the documented rejection (Response with a non-nil response, or Close), and from the failing edge of the credential check no forwarding return is reachable (no continue/fall-through to a later rule); (2) Basic: checkAuthCredentials returns true only under BasicAuth() ok, a hit in rule.UserPasswd keyed by the request's user name, and auth.CheckSecret(request password, stored hash); (3) JWT: checkAuthCredentials returns either getToken's error or validateToken(token from the Authorization Bearer header, rule); validateToken returns nil only under jwt.Parse(token, key function of a configured key) err == nil, token.Valid and Claims.Valid() == nil; the key function returns the configured key and must read token.Method / the alg header and reject on it; (4) secure link: Checker.Check returns nil only under encode(expression.Value(request)) == query[ChecksumKey], encode hashes its argument with md5, and with an ExpiresKey configured every path to `return nil` passes a comparison against time.Now() whose failing side returns an error; (5) mod_block: globalBlockHandler returns GoOn only when ipTable.Search(session.RemoteAddr.IP) is false and Close when it is true; productRulesProcess forwards a matched request only under Cmd == ALLOW, closes under CLOSE, and knows every command its ActionFileCheck accepts; productBlockHandler returns the verdict of productRulesProcess whenever a rule matched. (6) table loading is fail-closed, for mod_block's ipTable and ruleTable and the rule tables of the three auth modules: the value given to <table>.Update is result #0 of a loader call and the Update is reached only through that call's err == nil (load-gate; followed through one or two levels of helper parameters); in the publisher, its static callers (Init), the loader and the module-internal functions it calls as steps (two levels: *ConfLoad/*Check/*Convert, GlobalIPTableLoad, txt_load.CheckAndLoad, getFileInfo, checkLine, ipdict.NewIPItems/Insert*) every return that may carry a nil error is reached only through err == nil of every dominating error-returning call whose error the function inspects or whose value flows into the result, or hands that call's error on unchanged (load-result), and from the err != nil side of such a test no possibly-successful return is reachable (load-fail-closed); a deliberate fallback (a second step that runs only after the first failed, gates the return with its own error, and nothing of the failed step is returned) is accepted. Not covered: the crypto libraries (go-http-auth, jwt-go, md5/base64), the content of a successfully loaded table (line counting and meta-line arithmetic of txt_load, JSON semantics), errors that are discarded without ever being bound (`x, _ := f()` of a step inside a loop), reload handlers reached through the web-monitor function table, expiry arithmetic and clock, constant-time comparison, what the framework does with Close/Response verdicts (C48), rule matching itself (C16-C18).",
+			Explanation: "Decides for mod_auth_basic, mod_auth_jwt, mod_secure_link and mod_block: (1) in each handler every `return BfeHandlerGoOn` that is control-dependent on a rule having matched is also control-dependent on the credential check having succeeded, every other verdict returned there is the documented rejection (Response with a non-nil response, or Close), and from the failing edge of the credential check no forwarding return is reachable (no continue/fall-through to a later rule); (2) Basic: checkAuthCredentials returns true only under BasicAuth() ok, a hit in rule.UserPasswd keyed by the request's user name, and auth.CheckSecret(request password, stored hash); (3) JWT: checkAuthCredentials returns either getToken's error or validateToken(token from the Authorization Bearer header, rule); validateToken returns nil only under jwt.Parse(token, key function of a configured key) err == nil, token.Valid and Claims.Valid() == nil; the key function returns the configured key and must read token.Method / the alg header and reject on it; (4) secure link: Checker.Check returns nil only under encode(expression.Value(request)) == query[ChecksumKey], encode hashes its argument with md5, and with an ExpiresKey configured every path to an accepting return passes a comparison against time.Now() whose failing side returns an error - decided over Check and its private helpers (the branch on ExpiresKey and/or the comparison may live in an unexported helper that returns an error; its verdict counts only where `err == nil` of the call is the only way on to an accepting return, at every call site up to Check; an error handed on under `err != nil` is a rejection); (5) mod_block: globalBlockHandler returns GoOn only when ipTable.Search(session.RemoteAddr.IP) is false and Close when it is true; productRulesProcess forwards a matched request only under Cmd == ALLOW, closes under CLOSE, and knows every command its ActionFileCheck accepts; productBlockHandler returns the verdict of productRulesProcess whenever a rule matched. (6) table loading is fail-closed, for mod_block's ipTable and ruleTable and the rule tables of the three auth modules: the value given to <table>.Update is result #0 of a loader call and the Update is reached only through that call's err == nil (load-gate; followed through one or two levels of helper parameters); in the publisher, its static callers (Init), the loader and the module-internal functions it calls as steps (two levels: *ConfLoad/*Check/*Convert, GlobalIPTableLoad, txt_load.CheckAndLoad, getFileInfo, checkLine, ipdict.NewIPItems/Insert*) every return that may carry a nil error is reached only through err == nil of every dominating error-returning call whose error the function inspects or whose value flows into the result, or hands that call's error on unchanged (load-result), and from the err != nil side of such a test no possibly-successful return is reachable (load-fail-closed); a deliberate fallback (a second step that runs only after the first failed, gates the return with its own error, and nothing of the failed step is returned) is accepted. Not covered: an expiry helper that reports through a bool or through a result other than error (reported as a missing gate), the crypto libraries (go-http-auth, jwt-go, md5/base64), the content of a successfully loaded table (line counting and meta-line arithmetic of txt_load, JSON semantics), errors that are discarded without ever being bound (`x, _ := f()` of a step inside a loop), reload handlers reached through the web-monitor function table, expiry arithmetic and clock, constant-time comparison, what the framework does with Close/Response verdicts (C48), rule matching itself (C16-C18).",
 			RuleText:    "obligations = each verdict return in a matched region, each failing edge of a credential check, each success return of the check functions with its required guards, the compared values' origins, each key function, each accepted mod_block command, each table publication, each possibly-successful return and each error-test failing edge of the load-chain functions",
 			Assumptions: []string{"jwt-go rejects alg=none for ordinary keys and HMAC verification of non-[]byte keys (library behaviour, v3.2.0)", "handlers are the only filters the modules register (AddFilter call sites are not re-checked here)"},
 		},
@@ -53,6 +53,10 @@ func init() {
 			{Name: "silent-jwt-alg-pinned", File: "bfe_modules/mod_auth_jwt/auth_jwt_rule_load.go", Old: "	return p.key.Key, nil\n", New: "	if p.key.Algorithm != \"\" && token.Method.Alg() != p.key.Algorithm {\n		return nil, fmt.Errorf(\"unexpected signing method: %s\", token.Method.Alg())\n	}\n	return p.key.Key, nil\n", Silent: true},
 			{Name: "jwt-key-from-token-header", File: "bfe_modules/mod_auth_jwt/auth_jwt_rule_load.go", Old: "	return p.key.Key, nil\n", New: "	if k, ok := token.Header[\"jwk\"]; ok {\n		return k, nil\n	}\n	return p.key.Key, nil\n", Expect: "jwt-key|"},
 			{Name: "silent-jwt-success-first", File: "bfe_modules/mod_auth_jwt/mod_auth_jwt.go", Old: "			if err != nil {\n				if openDebug {\n					log.Logger.Debug(\"%s: check auth jwt error: %v\", m.name, err)\n				}\n\n				m.state.ReqAuthFailure.Inc(1)\n				return bfe_module.BfeHandlerResponse, m.createUnauthorizedResp(req, &rule)\n			}\n\n			m.state.ReqAuthSuccess.Inc(1)\n			return bfe_module.BfeHandlerGoOn, nil\n", New: "			if err == nil {\n				m.state.ReqAuthSuccess.Inc(1)\n				return bfe_module.BfeHandlerGoOn, nil\n			}\n			if openDebug {\n				log.Logger.Debug(\"%s: check auth jwt error: %v\", m.name, err)\n			}\n			m.state.ReqAuthFailure.Inc(1)\n			return bfe_module.BfeHandlerResponse, m.createUnauthorizedResp(req, &rule)\n", Silent: true},
+			{Name: "silent-securelink-expiry-in-helper", File: "bfe_modules/mod_secure_link/checker.go", Old: "// Check validate request\nfunc (cs *Checker) Check(request *bfe_basic.Request) error {\n\tif ek := cs.Config.ExpiresKey; ek != \"\" {\n\t\texpired := request.CachedQuery().Get(ek)\n\t\tif expired == \"\" {\n\t\t\treturn ErrReqWithoutExpiresKey\n\t\t}\n\n\t\texpiredUnix, err := strconv.Atoi(expired)\n\t\tif err != nil {\n\t\t\treturn ErrReqInvalidExpiresValue\n\t\t}\n\n\t\tif time.Now().Unix() > int64(expiredUnix) {\n\t\t\treturn ErrReqExpired\n\t\t}\n\t}\n", New: "func (cs *Checker) notExpired(request *bfe_basic.Request, ek string) error {\n\texpired := request.CachedQuery().Get(ek)\n\tif expired == \"\" {\n\t\treturn ErrReqWithoutExpiresKey\n\t}\n\texpiredUnix, err := strconv.Atoi(expired)\n\tif err != nil {\n\t\treturn ErrReqInvalidExpiresValue\n\t}\n\tif time.Now().Unix() > int64(expiredUnix) {\n\t\treturn ErrReqExpired\n\t}\n\treturn nil\n}\n\n// Check validate request\nfunc (cs *Checker) Check(request *bfe_basic.Request) error {\n\tif ek := cs.Config.ExpiresKey; ek != \"\" {\n\t\tif err := cs.notExpired(request, ek); err != nil {\n\t\t\treturn err\n\t\t}\n\t}\n", Silent: true},
+			{Name: "securelink-expiry-helper-verdict-ignored", File: "bfe_modules/mod_secure_link/checker.go", Old: "// Check validate request\nfunc (cs *Checker) Check(request *bfe_basic.Request) error {\n\tif ek := cs.Config.ExpiresKey; ek != \"\" {\n\t\texpired := request.CachedQuery().Get(ek)\n\t\tif expired == \"\" {\n\t\t\treturn ErrReqWithoutExpiresKey\n\t\t}\n\n\t\texpiredUnix, err := strconv.Atoi(expired)\n\t\tif err != nil {\n\t\t\treturn ErrReqInvalidExpiresValue\n\t\t}\n\n\t\tif time.Now().Unix() > int64(expiredUnix) {\n\t\t\treturn ErrReqExpired\n\t\t}\n\t}\n", New: "func (cs *Checker) notExpired(request *bfe_basic.Request, ek string) error {\n\texpired := request.CachedQuery().Get(ek)\n\tif expired == \"\" {\n\t\treturn ErrReqWithoutExpiresKey\n\t}\n\texpiredUnix, err := strconv.Atoi(expired)\n\tif err != nil {\n\t\treturn ErrReqInvalidExpiresValue\n\t}\n\tif time.Now().Unix() > int64(expiredUnix) {\n\t\treturn ErrReqExpired\n\t}\n\treturn nil\n}\n\n// Check validate request\nfunc (cs *Checker) Check(request *bfe_basic.Request) error {\n\tif ek := cs.Config.ExpiresKey; ek != \"\" {\n\t\tif err := cs.notExpired(request, ek); err != nil && err != ErrReqExpired {\n\t\t\treturn err\n\t\t}\n\t}\n", Expect: "expiry-gate"},
+			{Name: "silent-securelink-expiry-branch-in-helper", File: "bfe_modules/mod_secure_link/checker.go", Old: "// Check validate request\nfunc (cs *Checker) Check(request *bfe_basic.Request) error {\n\tif ek := cs.Config.ExpiresKey; ek != \"\" {\n\t\texpired := request.CachedQuery().Get(ek)\n\t\tif expired == \"\" {\n\t\t\treturn ErrReqWithoutExpiresKey\n\t\t}\n\n\t\texpiredUnix, err := strconv.Atoi(expired)\n\t\tif err != nil {\n\t\t\treturn ErrReqInvalidExpiresValue\n\t\t}\n\n\t\tif time.Now().Unix() > int64(expiredUnix) {\n\t\t\treturn ErrReqExpired\n\t\t}\n\t}\n", New: "func (cs *Checker) expiryOK(request *bfe_basic.Request) error {\n\tek := cs.Config.ExpiresKey\n\tif ek == \"\" {\n\t\treturn nil\n\t}\n\texpired := request.CachedQuery().Get(ek)\n\tif expired == \"\" {\n\t\treturn ErrReqWithoutExpiresKey\n\t}\n\texpiredUnix, err := strconv.Atoi(expired)\n\tif err != nil {\n\t\treturn ErrReqInvalidExpiresValue\n\t}\n\tif time.Now().Unix() > int64(expiredUnix) {\n\t\treturn ErrReqExpired\n\t}\n\treturn nil\n}\n\n// Check validate request\nfunc (cs *Checker) Check(request *bfe_basic.Request) error {\n\tif err := cs.expiryOK(request); err != nil {\n\t\treturn err\n\t}\n", Silent: true},
+			{Name: "securelink-expiry-branch-helper-not-enforced", File: "bfe_modules/mod_secure_link/checker.go", Old: "// Check validate request\nfunc (cs *Checker) Check(request *bfe_basic.Request) error {\n\tif ek := cs.Config.ExpiresKey; ek != \"\" {\n\t\texpired := request.CachedQuery().Get(ek)\n\t\tif expired == \"\" {\n\t\t\treturn ErrReqWithoutExpiresKey\n\t\t}\n\n\t\texpiredUnix, err := strconv.Atoi(expired)\n\t\tif err != nil {\n\t\t\treturn ErrReqInvalidExpiresValue\n\t\t}\n\n\t\tif time.Now().Unix() > int64(expiredUnix) {\n\t\t\treturn ErrReqExpired\n\t\t}\n\t}\n", New: "func (cs *Checker) expiryOK(request *bfe_basic.Request) error {\n\tek := cs.Config.ExpiresKey\n\tif ek == \"\" {\n\t\treturn nil\n\t}\n\texpired := request.CachedQuery().Get(ek)\n\tif expired == \"\" {\n\t\treturn ErrReqWithoutExpiresKey\n\t}\n\texpiredUnix, err := strconv.Atoi(expired)\n\tif err != nil {\n\t\treturn ErrReqInvalidExpiresValue\n\t}\n\tif time.Now().Unix() > int64(expiredUnix) {\n\t\treturn ErrReqExpired\n\t}\n\treturn nil\n}\n\n// Check validate request\nfunc (cs *Checker) Check(request *bfe_basic.Request) error {\n\tif err := cs.expiryOK(request); err != nil {\n\t\t_ = err\n\t}\n", Expect: "expiry-gate"},
 			{Name: "silent-basic-positive-form", File: "bfe_modules/mod_auth_basic/mod_auth_basic.go", Old: "			if !m.checkAuthCredentials(req, &rule) {\n				return bfe_module.BfeHandlerResponse, m.createUnauthorizedResp(req, &rule)\n			}\n			return bfe_module.BfeHandlerGoOn, nil", New: "			if m.checkAuthCredentials(req, &rule) {\n				return bfe_module.BfeHandlerGoOn, nil\n			}\n			return bfe_module.BfeHandlerResponse, m.createUnauthorizedResp(req, &rule)", Silent: true},
 		},
 	})
@@ -348,6 +352,9 @@ func mdC51JWT(c *core.Ctx, goOn int64, reject, needResp map[int64]bool, matched 
 			if c2 != nil && core.CallIs(c2, "fmt.Errorf", "errors.New") {
 				continue
 			}
+			if mdKnownNonNilErr(v, r.Block(), nil) {
+				continue
+			}
 			n++
 			c.Check("cred-success", fmt.Sprintf("mod_auth_jwt.validateToken:return#%d", n), r.Pos(), false, "validateToken returns "+core.Render(v)+", which is not known to be a non-nil error")
 			continue
@@ -560,6 +567,10 @@ func mdC51SecureLink(c *core.Ctx, goOn int64, reject, needResp map[int64]bool, m
 			if c2, _ := mdCallOf(v); c2 != nil && core.CallIs(c2, "fmt.Errorf", "errors.New") {
 				continue
 			}
+			// the error of a step (a private helper) handed on under `err != nil`
+			if mdKnownNonNilErr(v, r.Block(), nil) {
+				continue
+			}
 			n++
 			c.Check("cred-success", fmt.Sprintf("mod_secure_link.Checker.Check:return#%d", n), r.Pos(), false, "Check returns "+core.Render(v)+", which is not known to be a non-nil error")
 			continue
@@ -597,6 +608,68 @@ func mdC51SecureLink(c *core.Ctx, goOn int64, reject, needResp map[int64]bool, m
 	c.Min("checksum-flow", 2)
 
 	// expiry: with ExpiresKey configured every accepting path passes a time comparison
+	mdC51ExpiryGate(c, chk)
+	c.Min("expiry-gate", 1)
+	_ = nilRets
+}
+
+// mdC51ExpiryGate: with Config.ExpiresKey configured, every path of
+// Checker.Check to an accepting return passes a comparison of the request's
+// expiry with time.Now() whose failing side returns an error.
+//
+// The rule is stated over Check's region (Check and its private helpers): the
+// branch on ExpiresKey and the comparison may live in Check or in a helper
+// that returns an error; a helper's verdict counts only where its error
+// decides the caller's verdict (mdErrEnforcedAt) at every call site up to
+// Check.
+func mdC51ExpiryGate(c *core.Ctx, chk *ssa.Function) {
+	region := c.P.Region(chk)
+	inRegion := map[*ssa.Function]bool{}
+	for _, f := range region {
+		inRegion[f] = true
+	}
+	sites := mdPkgCallSites(region)
+	// v is Check's receiver, possibly handed down through helper parameters
+	var isRecv func(v ssa.Value, d int) bool
+	isRecv = func(v ssa.Value, d int) bool {
+		if v == ssa.Value(chk.Params[0]) {
+			return true
+		}
+		p, ok := v.(*ssa.Parameter)
+		if !ok || d > 3 || p.Parent() == chk || !inRegion[p.Parent()] || len(sites[p.Parent()]) == 0 {
+			return false
+		}
+		for i, q := range p.Parent().Params {
+			if q != p {
+				continue
+			}
+			for _, cs := range sites[p.Parent()] {
+				a := cs.Common().Args
+				if cs.Common().IsInvoke() || i >= len(a) || !isRecv(a[i], d+1) {
+					return false
+				}
+			}
+			return true
+		}
+		return false
+	}
+	accepting := func(r *ssa.Return) bool {
+		rv := core.RetVals(r)
+		if len(rv) == 0 || !types.Identical(rv[len(rv)-1].Type(), mdErrorType) {
+			return false
+		}
+		return !mdKnownNonNilErr(rv[len(rv)-1], r.Block(), nil)
+	}
+	acceptingIn := func(in ssa.Instruction) bool {
+		r, ok := in.(*ssa.Return)
+		return ok && accepting(r)
+	}
+	flowsFrom := func(v ssa.Value, pred func(ssa.Value) bool) bool {
+		sl := mdNewSlicer(2, nil)
+		sl.callers = sites
+		sl.walk(v, nil)
+		return sl.has(pred)
+	}
 	isTimeCmp := func(in ssa.Instruction) bool {
 		ifi, ok := in.(*ssa.If)
 		if !ok {
@@ -613,10 +686,10 @@ func mdC51SecureLink(c *core.Ctx, goOn int64, reject, needResp map[int64]bool, m
 			return false
 		}
 		now := func(v ssa.Value) bool {
-			return mdSliceHas(v, func(x ssa.Value) bool { return mdIsCallTo(x, "time.Now") })
+			return flowsFrom(v, func(x ssa.Value) bool { return mdIsCallTo(x, "time.Now") })
 		}
 		exp := func(v ssa.Value) bool {
-			return mdSliceHas(v, func(x ssa.Value) bool {
+			return flowsFrom(v, func(x ssa.Value) bool {
 				c2, _ := mdCallOf(x)
 				return c2 != nil && core.CallIs(c2, "net/url.Values.Get")
 			})
@@ -626,46 +699,105 @@ func mdC51SecureLink(c *core.Ctx, goOn int64, reject, needResp map[int64]bool, m
 		}
 		// one side of the comparison must be an immediate error return
 		for _, s := range ifi.Block().Succs {
-			if r := mdBlockReturn(s); r != nil && !mdIsNil(core.RetVals(r)[0]) {
-				return true
+			if r := mdBlockReturn(s); r != nil && !accepting(r) {
+				if rv := core.RetVals(r); len(rv) > 0 && !mdIsNil(rv[len(rv)-1]) {
+					return true
+				}
 			}
 		}
 		return false
 	}
-	ne := 0
-	for _, b := range chk.Blocks {
-		for _, s := range b.Succs {
-			f, ok := mdEdgeFact(b, s)
+	// passes: the comparison itself, or a call of a region helper that makes the
+	// comparison on every way to an accepting return and whose error decides
+	// the caller's verdict
+	var passes func(d int) func(in ssa.Instruction) bool
+	passes = func(d int) func(in ssa.Instruction) bool {
+		return func(in ssa.Instruction) bool {
+			if isTimeCmp(in) {
+				return true
+			}
+			k, ok := in.(*ssa.Call)
+			if !ok || d <= 0 {
+				return false
+			}
+			h := k.Call.StaticCallee()
+			if h == nil || h.Blocks == nil || !inRegion[h] || h == in.Parent() {
+				return false
+			}
+			res := h.Signature.Results()
+			if res.Len() == 0 || !types.Identical(res.At(res.Len()-1).Type(), mdErrorType) {
+				return false
+			}
+			if core.ReachAvoiding(h, nil, passes(d-1), acceptingIn) != nil {
+				return false
+			}
+			return mdErrEnforcedAt(k, accepting)
+		}
+	}
+	// enforcedUp: the verdict of helper g decides Check's verdict: at every call
+	// site, up to Check, the error is enforced
+	var enforcedUp func(g *ssa.Function, d int) (bool, string)
+	enforcedUp = func(g *ssa.Function, d int) (bool, string) {
+		if g == chk {
+			return true, ""
+		}
+		if d > 3 || len(sites[g]) == 0 {
+			return false, core.FuncKey(g) + " is not called from Check"
+		}
+		for _, cs := range sites[g] {
+			k, ok := cs.(*ssa.Call)
 			if !ok {
-				continue
+				return false, "a go/defer call of " + core.FuncKey(g)
 			}
-			x, str, equal, isStr := mdStrTest(f)
-			if !isStr || str != "" || equal {
-				continue
+			if !mdErrEnforcedAt(k, accepting) {
+				return false, "the error of " + core.FuncKey(g) + " does not decide the verdict of " + core.FuncKey(k.Parent())
 			}
-			k, isKey := mdFieldLoadNamed(x, "ExpiresKey")
-			if !isKey {
-				continue
+			if ok2, why := enforcedUp(k.Parent(), d+1); !ok2 {
+				return false, why
 			}
-			if cfg, ok := mdFieldLoadNamed(k, "Config"); !ok || cfg != recv {
-				continue
+		}
+		return true, ""
+	}
+	ne := 0
+	for _, g := range region {
+		if g.Parent() != nil {
+			continue
+		}
+		for _, b := range g.Blocks {
+			for _, s := range b.Succs {
+				f, ok := mdEdgeFact(b, s)
+				if !ok {
+					continue
+				}
+				x, str, equal, isStr := mdStrTest(f)
+				if !isStr || str != "" || equal {
+					continue
+				}
+				k, isKey := mdFieldLoadNamed(x, "ExpiresKey")
+				if !isKey {
+					continue
+				}
+				if cfg, ok := mdFieldLoadNamed(k, "Config"); !ok || !isRecv(cfg, 0) {
+					continue
+				}
+				ne++
+				c.Analysed(core.FuncKey(g))
+				bad := core.ReachAvoiding(g, s.Instrs[0], passes(2), acceptingIn)
+				if passes(2)(s.Instrs[0]) {
+					bad = nil
+				}
+				why := ""
+				good := bad == nil
+				if good && g != chk {
+					good, why = enforcedUp(g, 0)
+				}
+				c.Check("expiry-gate", fmt.Sprintf("Checker.Check:expires-configured#%d", ne), s.Instrs[0].Pos(), good, "with an ExpiresKey configured a path reaches `return nil` without comparing the request's expiry against time.Now() (with an error return on one side) "+why)
 			}
-			ne++
-			bad := core.ReachAvoiding(chk, s.Instrs[0], isTimeCmp, func(in ssa.Instruction) bool {
-				r, ok := in.(*ssa.Return)
-				return ok && mdIsNil(core.RetVals(r)[0])
-			})
-			if isTimeCmp(s.Instrs[0]) {
-				bad = nil
-			}
-			c.Check("expiry-gate", fmt.Sprintf("Checker.Check:expires-configured#%d", ne), s.Instrs[0].Pos(), bad == nil, "with an ExpiresKey configured a path reaches `return nil` without comparing the request's expiry against time.Now() (with an error return on one side)")
 		}
 	}
 	if ne == 0 {
-		c.Check("expiry-gate", "Checker.Check:expires-configured", chk.Pos(), false, "no branch on Config.ExpiresKey != \"\" found")
+		c.Check("expiry-gate", "Checker.Check:expires-configured", chk.Pos(), false, "no branch on Config.ExpiresKey != \"\" found in Check or its private helpers")
 	}
-	c.Min("expiry-gate", 1)
-	_ = nilRets
 }
 
 // ---- mod_block -------------------------------------------------------------------
